@@ -1,7 +1,7 @@
 /-
   C14 — lemmas about the revision model (`Gama/Model/Revise.lean`).
 -/
-import Gama.Model.Revise
+import Gama.Lemmas.ReviseLoop
 import Gama.Model.ReviseSpec
 namespace Gama.Rev
 variable {K : Type}
@@ -109,13 +109,13 @@ theorem soundObs_passDir (pts : List (Pt K)) (os : List (Obs K)) (h : SoundObs p
 
 theorem standRule_obs_sound (pts : List (Pt K)) (c : Cluster K) (h : SoundObs pts c.obs) :
     SoundObs pts (standRule c).obs := by
-  unfold standRule
+  simp only [standRule_def]
   split
   · exact soundObs_passDir pts c.obs h
   · exact h
 
 theorem standRule_idem (c : Cluster K) : standRule (standRule c) = standRule c := by
-  unfold standRule
+  simp only [standRule_def]
   by_cases h : (c.stand && decide (distinctTargets c.obs < 2)) = true
   · simp only [h, if_true]
     have h1 : c.stand = true := by simp at h; exact h.1
@@ -129,7 +129,7 @@ theorem reviseCl_obs_sound (pts : List (Pt K)) (c : Cluster K) : SoundObs pts (r
 
 theorem updateCl_standRule (c : Cluster K) (a : Nat) :
     standRule { c with actObs := a } = { standRule c with actObs := a } := by
-  unfold standRule
+  simp only [standRule_def]
   split <;> rfl
 
 theorem reviseCl_idem (pts : List (Pt K)) (c : Cluster K) :
@@ -243,7 +243,8 @@ theorem reviseCl_obs (pts : List (Pt K)) (c : Cluster K) :
     (reviseCl pts c).obs = c.obs.map (fun o =>
       if c.stand && decide (distinctTargets (c.obs.map (localRev pts)) < 2)
       then passDir (localRev pts o) else localRev pts o) := by
-  unfold reviseCl updateCl standRule
+  unfold reviseCl updateCl
+  simp only [standRule_def]
   by_cases h : (c.stand && decide (distinctTargets (c.obs.map (localRev pts)) < 2)) = true
   · simp [h, List.map_map, Function.comp_def]
   · simp [h]
@@ -372,7 +373,8 @@ def Good (P : List (Pt K)) (c : Cluster K) : Prop :=
 
 theorem good_reviseCl (P : List (Pt K)) (c0 : Cluster K) : Good P (reviseCl P c0) := by
   refine ⟨reviseCl_obs_sound P c0, ?_⟩
-  unfold reviseCl updateCl standRule
+  unfold reviseCl updateCl
+  simp only [standRule_def]
   by_cases hf : (c0.stand && decide (distinctTargets (c0.obs.map (localRev P)) < 2)) = true
   · simp only [hf, if_true]
     intro _ o ho
@@ -401,7 +403,7 @@ theorem reviseCl_keepActive (P : List (Pt K)) (c : Cluster K) (hg : Good P c) :
     exact reqOk_filter P o (hg.1 o ho' ha)
   have h1 := map_localRev_fix _ _ hs
   have hst : (standRule (keepActive c)).obs = (keepActive c).obs := by
-    unfold standRule
+    simp only [standRule_def]
     by_cases hf : ((keepActive c).stand && decide (distinctTargets (keepActive c).obs < 2)) = true
     · simp only [hf, if_true]
       have hf' : (c.stand && decide (distinctTargets c.obs < 2)) = true := by
@@ -428,7 +430,8 @@ theorem reviseCl_keepActive (P : List (Pt K)) (c : Cluster K) (hg : Good P c) :
     rw [h1]
     exact hst
   refine ⟨?_, ?_⟩
-  · unfold reviseCl updateCl standRule
+  · unfold reviseCl updateCl
+    simp only [standRule_def]
     split <;> rfl
   · rw [hobs]
     show (c.obs.filter (·.active)).filter (·.active) = c.obs.filter (·.active)
